@@ -15,7 +15,7 @@ struct Spec {
 	std::string ver;   // OB FO3 SK SSE FO4
 	int tree = 0;	   // index into the list of node trees (0..9)
 	int shapes = 0;	   // index into the list of shape placements (0..5)
-	int attach = 0;	   // attachment menu (0..8)
+	int attach = 0;	   // attachment menu (0..9)
 	bool dupnames = false;
 };
 
@@ -37,8 +37,8 @@ inline const std::vector<std::vector<int>>& shape_sets() {
 	static const std::vector<std::vector<int>> s = {{}, {0}, {1}, {0, 0}, {0, 1}, {1, 1}, {0, 0, 0}};
 	return s;
 }
-static const char* ATTACH[] = {"none", "extra-data", "collision", "constraint", "controller", "loose", "ordered-node", "alpha+shape-extra", "shared-collision"};
-constexpr int NATTACH = 9;
+static const char* ATTACH[] = {"none", "extra-data", "collision", "constraint", "controller", "loose", "ordered-node", "alpha+shape-extra", "shared-collision", "empty-child-refs"};
+constexpr int NATTACH = 10;
 
 inline std::string spec_str(const Spec& s) {
 	return s.ver + "/tree" + std::to_string(s.tree) + "/shapes" + std::to_string(s.shapes) + "/" + ATTACH[s.attach] + (s.dupnames ? "/dup" : "");
@@ -191,6 +191,21 @@ inline bool build(const Spec& sp, NifFile& nif) {
 				ctl->interpolatorRef.index = interpId;
 				hdr.AddBlock(std::move(ctl));
 			}
+			break;
+		}
+		case 9: {
+			// child lists that hold empty references: a node whose child references are ALL empty, and an empty reference
+			// in front of the root's real children (files in the wild have both; writing drops empty references)
+			auto n = std::make_unique<NiNode>();
+			n->name.get() = "Hollow";
+			n->childRefs.AddBlockRef(NIF_NPOS);
+			n->childRefs.AddBlockRef(NIF_NPOS);
+			uint32_t nid = hdr.AddBlock(std::move(n));
+			root->childRefs.AddBlockRef(NIF_NPOS);
+			root->childRefs.AddBlockRef(nid);
+			auto leaf = std::make_unique<NiNode>();
+			leaf->name.get() = "Leaf";
+			root->childRefs.AddBlockRef(hdr.AddBlock(std::move(leaf)));
 			break;
 		}
 		case 8: {
